@@ -47,6 +47,7 @@ static void out_mpf (mpf_t x)
 static int rdpe_is_max (const rdpe_t r) { return rdpe_Mnt (r) == rdpe_Mnt (RDPE_MAX) && rdpe_Esp (r) == rdpe_Esp (RDPE_MAX); }
 static void out_rad_rdpe (const rdpe_t r) { if (rdpe_is_max (r)) printf (" max"); else out_rdpe (r); }
 
+#define SR_BIG_EXP (1L << 40)
 static mps_context *ctx = NULL;
 static mps_polynomial *poly = NULL;
 
@@ -224,7 +225,9 @@ int main (void)
               mpc_get_cdpe (cd, sec->bmpc[i]); cdpe_set (ctx->root[i]->dvalue, cd);
               mpc_get_cplx (cf, sec->bmpc[i]); cplx_set (ctx->root[i]->fvalue, cf);
               ctx->root[i]->wp = ctx->mpwp;
-              ctx->root[i]->frad = DBL_MAX; rdpe_set (ctx->root[i]->drad, RDPE_MAX);
+              /* "no radius yet": huge, but far from the exponent limit (mps_dmodify / mps_mmodify divide the radius
+               * by |value|, which overflows the exponent of RDPE_MAX: a DPE-arithmetic matter, property C12) */
+              ctx->root[i]->frad = DBL_MAX; rdpe_set_2dl (ctx->root[i]->drad, 0.5, SR_BIG_EXP);
               ctx->root[i]->status = MPS_ROOT_STATUS_CLUSTERED; ctx->root[i]->again = true;
             }
           mps_cluster_reset (ctx);
@@ -233,7 +236,10 @@ int main (void)
           ctx->secular_equation = keep;
           printf ("SR %ld", (long)ctx->mpwp);
           for (i = 0; i < ctx->n; i++)
-            { out_mpf (mpc_Re (ctx->root[i]->mvalue)); out_mpf (mpc_Im (ctx->root[i]->mvalue)); out_rad_rdpe (ctx->root[i]->drad); }
+            {
+              out_mpf (mpc_Re (ctx->root[i]->mvalue)); out_mpf (mpc_Im (ctx->root[i]->mvalue));
+              if (rdpe_Esp (ctx->root[i]->drad) >= SR_BIG_EXP / 2) printf (" max"); else out_rad_rdpe (ctx->root[i]->drad);
+            }
           printf ("\n");
         }
       else { fprintf (stderr, "c04_radius: unknown command %s\n", c); return 3; }
